@@ -778,6 +778,14 @@ class Container:
         if source_container is self:
             raise ValueError("Source and destination are the same container.")
         quantity_to_transfer, unit = Unit.parse_quantity(quantity)
+        if quantity_to_transfer < 0:
+            raise ValueError("Quantity to transfer must not be negative.")
+
+        def fraction_of(requested, available):
+            """ Fraction of the source to move; more than is available (or anything from nothing) gives > 1. """
+            if available == 0:
+                return 0.0 if requested == 0 else float('inf')
+            return requested / available
 
         if unit == 'L':
             volume_to_transfer = Unit.convert_to_storage(quantity_to_transfer, 'L')
@@ -787,7 +795,7 @@ class Container:
                 raise ValueError(f"Not enough mixture left in source container ({source_container.name}). " +
                                  f"Only {Unit.convert_from_storage(source_container.volume, 'mL')} mL available, " +
                                  f"{Unit.convert_from_storage(volume_to_transfer, 'mL')} mL needed.")
-            ratio = volume_to_transfer / source_container.volume
+            ratio = fraction_of(volume_to_transfer, source_container.volume)
 
         elif unit == 'g':
             mass_to_transfer = round(quantity_to_transfer, config.internal_precision)
@@ -795,12 +803,12 @@ class Container:
             for substance, amount in source_container.contents.items():
                 source_unit = 'U' if substance.is_enzyme() else config.moles_storage_unit
                 total_mass += Unit.convert_from(substance, amount, source_unit, "g")
-            ratio = mass_to_transfer / total_mass
+            ratio = fraction_of(mass_to_transfer, total_mass)
         elif unit == 'mol':
             moles_to_transfer = Unit.convert_to_storage(quantity_to_transfer, 'mol')
             total_moles = sum(amount for substance, amount in source_container.contents.items()
                               if not substance.is_enzyme())
-            ratio = moles_to_transfer / total_moles
+            ratio = fraction_of(moles_to_transfer, total_moles)
         elif unit == 'U':
             total_activity = sum(amount for substance, amount in source_container.contents.items()
                                  if substance.is_enzyme())
@@ -809,6 +817,11 @@ class Container:
             ratio = quantity_to_transfer / total_activity
         else:
             raise ValueError("Invalid quantity unit.")
+
+        if ratio > 1:
+            if round(ratio, config.internal_precision) > 1:
+                raise ValueError(f"Not enough mixture left in source container ({source_container.name}).")
+            ratio = 1.0  # the whole content, up to internal precision
 
         source_container, to = deepcopy(source_container), deepcopy(self)
         for substance, amount in source_container.contents.items():
